@@ -129,6 +129,14 @@ def calls_with_child(fn, envs, body_nodes, accepted, variant, field):
             continue
         for n in A.walk(root):
             cn = callee_name(n)
+            # a worklist traversal hands a child on by pushing it onto the pending list it was given (`&mut Vec<..Id>` parameter)
+            if n["k"] == "MethodCall" and cn in ("push", "extend") and _is_worklist(fn, envs, n["recv"]):
+                for a in n["args"]:
+                    p = A.resolve(a, envs.get(id(n)))
+                    if has_root(p, variant, field):
+                        hits.append((n, [x for x in adaptors_between(p, variant, field) if x != "rev"], p))
+                        break
+                continue
             if cn is None or cn not in accepted:
                 continue
             env = envs.get(id(n))
@@ -145,6 +153,16 @@ def calls_with_child(fn, envs, body_nodes, accepted, variant, field):
                     hits.append((n, adaptors_between(p, variant, field), p))
                     break
     return hits
+
+
+def _is_worklist(fn, envs, recv):
+    p = A.resolve(recv, envs.get(id(recv)) or A.fn_env(fn))
+    while p[0] in ("ref", "deref"):
+        p = p[1]
+    if p[0] != "param" or not isinstance(p[1], int) or p[1] >= len(fn.params):
+        return False
+    ty = "".join((fn.params[p[1]].get("ty") or "").split())
+    return "mut" in ty and re.search(r"Vec<\w*Id>", ty) is not None
 
 
 def is_unreachable_body(body):
